@@ -207,6 +207,15 @@ def s4(ctx):
             src = ast.unparse(it)
             iters.append((src, n))
         shard_iters = [(s, n) for s, n in iters if '_shards' in s]
+        # `for m in (getattr(shard, name) for shard in self._shards)`: one iteration over the shards, written as a loop
+        # over a generator of per-shard values
+        lazy = [n for _, n in shard_iters if isinstance(n, ast.For) and isinstance(n.iter, ast.GeneratorExp)
+                and len(n.iter.generators) == 1 and not n.iter.generators[0].ifs]
+        lazy_for = None
+        if len(lazy) == 1 and len(shard_iters) == 2:
+            lazy_for = lazy[0]
+            inner = lazy_for.iter.generators[0]
+            shard_iters = [(ast.unparse(inner.iter), lazy_for)]
         ok = len(shard_iters) == 1 and shard_iters[0][0] in ('self._shards', 'reversed(self._shards)', 'self._shards[::-1]')
         why = 'iterates %s' % [s for s, _ in shard_iters]
         if ok:
@@ -225,6 +234,9 @@ def s4(ctx):
             node = shard_iters[0][1]
             tgt = node.target
             var = tgt.id if isinstance(tgt, ast.Name) else None
+            if node is lazy_for:
+                tgt = node.iter.generators[0].target
+                var = tgt.id if isinstance(tgt, ast.Name) else None
             body = node if isinstance(node, ast.For) else None
             uses = False
             scope = f.node
